@@ -40,7 +40,8 @@ WARMUP = 6
 QUICK = {'budget_s': 40}
 THOROUGH = {'budget_s': 480}
 EXPECTED_PROBES = ['live_read_after_assignment', 'dimensioned_value', 'transformed_value', 'non_finite_value',
-                   'attachment', 'json_round_trip', 'allow_nan']
+                   'attachment', 'json_round_trip', 'allow_nan', 'record_lists_of_whole_programs', 'rendered_subtests',
+                   'rendered_branches', 'rendered_checkpoints']
 
 
 def setup():
@@ -54,7 +55,63 @@ def _strict_loads(text):
   return json.loads(text, parse_constant=bad)
 
 
+PROF_LISTS = None
+
+
+def run_record_lists(tape):
+  """Whole generated programs (subtests, branches, checkpoints, diagnoses, terminal results inside
+  subtests, aborts): every record list of the final TestRecord is rendered as it is in memory."""
+  global PROF_LISTS
+  from wx import gen as gen_mod
+  from wx import oracles
+  if PROF_LISTS is None:
+    PROF_LISTS = gen_mod.profile(max_nodes=10, max_depth=3, w_phase=8, w_group=3, w_subtest=5, w_branch=3, w_ckpt_fail=2,
+                                 w_ckpt_diag=2, p_fault_beh=350, p_diag=400, p_meas=300, p_test_diag=300, p_attach=200,
+                                 p_logs=300, abort=150)
+
+  def lists_oracle(obs, act, viols, probes):
+    rec = act.rec
+    if rec is None or obs.failed is not None:
+      return
+    probes['record_lists_of_whole_programs'] = 1
+    bt = rec.as_base_types()
+    pairs = [
+        ('subtests', [(x.get('name'), x.get('outcome')) for x in bt.get('subtests', [])],
+         [(x.name, x.outcome.name if x.outcome else None) for x in rec.subtests]),
+        ('branches', [(x.get('name'), x.get('branch_taken')) for x in bt.get('branches', [])],
+         [(x.name, x.branch_taken) for x in rec.branches]),
+        ('checkpoints', [(x.get('name'), str(x.get('result'))[:60]) for x in bt.get('checkpoints', [])],
+         [(x.name, str(_fresh(x.result))[:60]) for x in rec.checkpoints]),
+        ('diagnoses', [(x.get('result'), bool(x.get('is_failure'))) for x in bt.get('diagnoses', [])],
+         [(_fresh(d.result), bool(d.is_failure)) for d in rec.diagnoses]),
+        ('phases', [(x.get('name'), x.get('outcome'), x.get('subtest_name')) for x in bt.get('phases', [])],
+         [(p.name, p.outcome.name if p.outcome else None, p.subtest_name) for p in rec.phases]),
+    ]
+    if bt.get('outcome') != (rec.outcome.name if rec.outcome else None):
+      viols.append({'clause': 'rendered_test_outcome_differs', 'details': {'rendered': bt.get('outcome')}})
+    for name, rendered, fresh in pairs:
+      if rendered != fresh:
+        i = 0
+        while i < min(len(rendered), len(fresh)) and rendered[i] == fresh[i]:
+          i += 1
+        viols.append({'clause': 'rendered_record_list_differs', 'details': {
+            'list': name, 'rendered': [list(map(str, r)) for r in rendered[i:i + 2]],
+            'in_memory': [list(map(str, r)) for r in fresh[i:i + 2]]}})
+        break
+      if fresh and name in ('subtests', 'branches', 'checkpoints'):
+        probes['rendered_' + name] = 1
+
+  return common.run_with(tape, PROF_LISTS, [lists_oracle])
+
+
+def _fresh(x):
+  from openhtf.util import data
+  return data.convert_to_base_types(x)
+
+
 def run_one(tape):
+  if tape.chance(250, 'record_lists_mode'):
+    return run_record_lists(tape)
   sim, spec, exp, rec, obs, failed = wmeas.run(tape, for_c10=True)
   viols = []
   probes = {}
